@@ -162,6 +162,19 @@ def streams(seed, tier):
     out.append(Stream("pending-flags", "thr.repeat", "thr.repeat.check", flag,
                       "programs around NAME.QUOTE and bound names: three times in a row, on 1 / 8 / 16 threads at once, and after runs (other states) that END with a "
                       "NAME.QUOTE or a send flag pending: the pending flag belongs to the PushState, nothing leaks between states or threads"))
+    # (1d) every deterministic instruction, the SAME random state in the debug and in the release build (a side effect inside
+    #      debug_assert!, an overflow check, a libm call compiled differently): both must equal the model
+    both = []
+    sweep = [x for x in sorted(modelled) if x not in stepgen.UNSAFE and x not in stepgen.RANDOM and x not in stepgen.HASH_ORDERED]
+    allsafe = [x for x in sweep if x not in stepgen.ALLOCATING]
+    per = {"quick": 8, "thorough": 80, "search": 20}[tier]
+    for nm in sweep:
+        for j in range(per):
+            sd = rng.getrandbits(48)
+            for prof in (0, 1):
+                both.append(stepgen.step_case(random.Random(sd), nm, sorted(modelled), allsafe, profile=prof))
+    out.append(Stream("single-steps-both-profiles", "run", "run.check", both,
+                      "one step of each of the %d deterministic instructions on %d random whole states, each state run in the debug AND in the release build" % (len(sweep), per)))
     # (2) node ids under real concurrency
     idc = [[16, 10000, 0], [16, 100000, 0], [16, 10000, 1], [1, 1000, 0], [2, 100000, 1], [8, 20000, 1]]
     if tier != "quick":
